@@ -79,7 +79,7 @@ DELIVERABLES, all inside {wt}/_seed/ (create the directory):
                    the standard library, which checks the PROPERTY AS STATED (not an implementation detail) on the specific
                    input/sequence that exposes your change: it must `sys.exit(1)` (printing what it saw) when the property is
                    violated and `sys.exit(0)` when it holds.  It must exit 1 with your change and exit 0 on the unchanged
-                   code (verify both: `git -C {wt} stash` / `git -C {wt} stash pop`, and re-check the patch afterwards).
+                   code (verify both; to get the unchanged code use `git -C {wt} apply -R _seed/patch.diff` and then `git -C {wt} apply _seed/patch.diff` again - do NOT use `git stash`: the stash is shared between all worktrees of the repository and other people work in sibling worktrees at the same time).
   3. meta.json   - {{"property": "{prop}", "summary": "<what the change does, 1-3 sentences>", "needs": "<what is needed
                    for it to manifest>", "why_tests_pass": "<why the suite does not notice>"}}
 Before you finish: run the full test suite with the change (must be all green), run demo.py with and without the change,
